@@ -249,8 +249,23 @@ def varRef (cx : Ctx) (loc : List (Text × Val)) (x : Text) : Option Val :=
 
 abbrev CloAp := Ctx → List Text → List SExp → Nat → List Val → R Val
 
-/-- Apply a procedure value; `ho` says whether a builtin may itself apply procedures. -/
-def applyVal (ap : CloAp) (cx : Ctx) (ho : Bool) (v : Val) (args : List Val) : R Val :=
+/-- Procedure application as seen by a `call-with-…` runtime procedure: closures, printers and
+    first-order runtime procedures. -/
+def apvHO (ap : CloAp) (cx : Ctx) (g : Val) (xs : List Val) : R Val :=
+  match g with
+  | .clo ps body depth => ap cx ps body depth xs
+  | .printer d _ term =>
+    match xs with
+    | [.str line] => .ok .unspec [.record d line term]
+    | _ => .fail "printer: wrong arguments"
+  | .builtin m =>
+    match primOf m with
+    | some q => applyPrim cx (fun _ _ => .fail "nested higher-order call") q xs
+    | none => .fail "unbound"
+  | _ => .fail "not a procedure"
+
+/-- Apply a procedure value. -/
+def applyVal (ap : CloAp) (cx : Ctx) (v : Val) (args : List Val) : R Val :=
   match v with
   | .clo ps body depth => ap cx ps body depth args
   | .printer d _ term =>
@@ -259,22 +274,17 @@ def applyVal (ap : CloAp) (cx : Ctx) (ho : Bool) (v : Val) (args : List Val) : R
     | _ => .fail "printer: wrong arguments"
   | .builtin n =>
     match primOf n with
-    | some p =>
-      applyPrim cx (fun g xs => if ho then
-          match g with
-          | .clo ps body depth => ap cx ps body depth xs
-          | .printer d _ term =>
-            match xs with
-            | [.str line] => .ok .unspec [.record d line term]
-            | _ => .fail "printer: wrong arguments"
-          | .builtin m =>
-            match primOf m with
-            | some q => applyPrim cx (fun _ _ => .fail "nested higher-order call") q xs
-            | none => .fail "unbound"
-          | _ => .fail "not a procedure"
-        else .fail "nested higher-order call") p args
+    | some p => applyPrim cx (apvHO ap cx) p args
     | none => .fail "unbound"
   | _ => .fail "not a procedure"
+
+/-- `(lambda (p…) body…)`: a closure that sees the bindings made so far. -/
+def mkLambda (cx : Ctx) : List SExp → R Val
+  | .list ps :: body =>
+    match paramNames ps with
+    | some names => .ok (.clo names body cx.env.length) []
+    | none => .fail "lambda: bad parameter list"
+  | _ => .fail "lambda: bad form"
 
 mutual
 /-- Evaluate one form. -/
@@ -291,20 +301,13 @@ def eval (ap : CloAp) (cx : Ctx) (loc : List (Text × Val)) : SExp → R Val
   | .list (.sym f :: args) =>
     if f = cl!"and" then evalAnd ap cx loc args
     else if f = cl!"or" then evalOr ap cx loc args
-    else if f = cl!"lambda" then
-      match args with
-      | .list ps :: body =>
-        match paramNames ps with
-        | some names => .ok (.clo names body cx.env.length) []
-        | none => .fail "lambda: bad parameter list"
-      | _ => .fail "lambda: bad form"
+    else if f = cl!"lambda" then mkLambda cx args
     else if f = cl!"with-mutex" then
-      match args with
-      | m :: body => (eval ap cx loc m).bind fun _ => evalSeq ap cx loc body
-      | [] => .fail "with-mutex: bad form"
+      -- the mutex expression, then the body, in sequence (the lock itself is the subject of C16)
+      if args.isEmpty then .fail "with-mutex: bad form" else evalSeq ap cx loc args
     else
       match varRef cx loc f with
-      | some g => (evalArgs ap cx loc args).bind fun vs => applyVal ap cx true g vs
+      | some g => (evalArgs ap cx loc args).bind fun vs => applyVal ap cx g vs
       | none => .fail ("unbound variable " ++ String.ofList f)
   | .list (_ :: _) => .fail "application of a non-symbol head"
 /-- Evaluate arguments left to right. -/
@@ -348,21 +351,25 @@ def evalBindings (rt : Rt) (file : File) : List (Text × SExp) → List (Text ×
     | .stop _ => .error "stop request while initialising"
     | .fail w => .error w
 
+/-- One frame: the tag selects the destination and terminator from the table. -/
+def frameOut (io : Option (List (Nat × Target))) (payload : Text) (sep tag : Char) (rest : Option (List Output)) :
+    Option (List Output) :=
+  if sep.toNat = 0x1e then
+    match io with
+    | some table =>
+      match table.find? (fun kv => kv.1 = tag.toNat), rest with
+      | some (_, .stdout t), some outs => some (⟨.stdout, payload, t⟩ :: outs)
+      | some (_, .file name t), some outs => some (⟨.file name, payload, t⟩ :: outs)
+      | _, _ => none
+    | none => none
+  else none
+
 /-- Events to outputs: a record is an output; in framed mode two consecutive displays on standard
     output — payload, then separator + tag — are one output to the tag's table entry. -/
 def decode (io : Option (List (Nat × Target))) : List Event → Option (List Output)
   | [] => some []
   | .record d bytes t :: rest => (decode io rest).map (⟨d, bytes, t⟩ :: ·)
-  | .raw .stdout payload :: .raw .stdout [sep, tag] :: rest =>
-    if sep.toNat = 0x1e then
-      match io with
-      | some table =>
-        match table.find? (fun kv => kv.1 = tag.toNat), decode io rest with
-        | some (_, .stdout t), some outs => some (⟨.stdout, payload, t⟩ :: outs)
-        | some (_, .file name t), some outs => some (⟨.file name, payload, t⟩ :: outs)
-        | _, _ => none
-      | none => none
-    else none
+  | .raw .stdout payload :: .raw .stdout [sep, tag] :: rest => frameOut io payload sep tag (decode io rest)
   | _ => none
 
 inductive Run where
@@ -371,11 +378,11 @@ inductive Run where
   deriving Repr, Inhabited
 
 /-- One call of the policy on one file. -/
-def runPolicy (rt : Rt) (file : File) (io : Option (List (Nat × Target))) (p : Program) : Run :=
-  match evalBindings rt file p.bindings [] with
+def runPolicy (rt : Rt) (file : File) (io : Option (List (Nat × Target))) (bindings : List (Text × SExp)) (body : SExp) : Run :=
+  match evalBindings rt file bindings [] with
   | .error w => .failed ("bindings: " ++ w)
   | .ok env =>
-    match eval (apN closureDepth) { rt := rt, file := file, env := env } [] p.body with
+    match eval (apN closureDepth) { rt := rt, file := file, env := env } [] body with
     | .fail w => .failed w
     | .ok v ev =>
       match decode io ev with
